@@ -51,6 +51,18 @@ def proof_status(ctx, required, pid=None):
     ctx.cover["dependency_cone"] = ob["cone"]
     if bad_ax:
         ctx.notes.append("axioms reported: " + "; ".join(bad_ax))
+    # thorough tier: independent re-check of the compiled cone with coqchk (axioms, type-in-type, unsafe fixpoints)
+    if ctx.tier == "thorough" and ob["present"] and not ob["failed"]:
+        try:
+            p = subprocess.run(["coqchk", "-silent", "-o", "-Q", ".", "Pico", "Pico.Props." + (pid or ctx.pid)], cwd=C.COQ,
+                               stdout=subprocess.PIPE, stderr=subprocess.STDOUT, text=True, timeout=5400)
+            tail = p.stdout[-1500:]
+            summary = " ".join(l.strip() for l in tail.split("\n") if l.strip().startswith("*"))
+            ctx.cover["coqchk"] = {"rc": p.returncode, "summary": summary[:600]}
+            if p.returncode != 0 or "Axioms: <none>" not in summary:
+                problems.append("coqchk does not accept the compiled cone without axioms: " + tail[-400:])
+        except subprocess.TimeoutExpired:
+            ctx.cover["coqchk"] = {"rc": None, "summary": "timeout after 5400 s (not counted)"}
     return (not problems), ob, problems
 
 
